@@ -67,6 +67,10 @@ def sStep (tg : String → Nat) (s : SSt) (op : Op) (out : List Proposal) : SSt 
      out.map (mkEv q1 s.now))
   | .outcome sf =>
     ({ (sf.flatten.foldl (sRemove1 tg) s) with q := addToProposalQHook s.now sf s.q }, true, [])
+  | .tick t n order _ =>
+    -- `out` = the payloads that reached the runner of the finalisation flow: each is a hand-out
+    let q1 := (dequeueScan tg t s.now order s.q []).2
+    ({ s with q := (dequeue tg t n s.now order s.q).2 }, true, out.map (mkEv q1 s.now))
 
 /-- replay: all view verdicts, all hand-outs in order -/
 def sRun (tg : String → Nat) : List Op → List (Option (List Proposal)) → SSt → Bool × List Ev
